@@ -17,7 +17,7 @@ RULE = (
     "distinct_nontrivial = distinct (model cell, algorithm, n_subjects, n_iter, burn-in, annealing) configurations"
 )
 REQUIRED = {"calls_scipy_minimize": 15, "calls_mean_posterior": 15, "calls_mode_posterior": 15, "subjects_alignment": 300, "scipy_objective_checks": 100,
-            "mean_checks": 100, "mode_checks": 100, "kept_draw_index_checks": 30}
+            "mean_checks": 100, "mode_checks": 100, "kept_draw_index_checks": 30, "algorithm_object_reused": 10, "scipy_small_budget_calls": 5}
 ASSUMPTIONS = [
     "scipy: objective compared through the algorithm's own obj_no_jac on the per-subject state (the objective's terms are C08's job); non-worsening "
     "judged at 1e-6 relative + 1e-6 absolute",
@@ -90,8 +90,13 @@ def run_shard(spec, ctx):
             nb = int(rng.choice([0, n_iter // 2, max(n_iter - 1, 0)]))
             anneal = bool(rng.random() < 0.3)
             settings = dict(seed=int(rng.integers(1 << 30)), progress_bar=False)
+            budget = None
             if algo_name == "scipy_minimize":
                 settings.update(use_jacobian=False)
+                if rng.random() < 0.45:  # the solver stops without converging for some subjects
+                    budget = int(rng.choice([1, 2, 5]))
+                    settings.update(custom_scipy_minimize_params={"method": "Powell", "options": {"maxiter": budget, "xtol": 1e-4, "ftol": 1e-4}})
+                    ctx.count("scipy_small_budget_calls")
             else:
                 settings.update(n_iter=n_iter, n_burn_in_iter=nb, n_burn_in_iter_frac=None)
                 if anneal:
@@ -140,8 +145,22 @@ def run_shard(spec, ctx):
                     return _o()
 
                 algo._update_temperature = ut
-            # ---- the real call ------------------------------------------------------------------------------
+            # ---- history of the algorithm object: it may already have been run once on another cohort -------------
             no_kept = algo_name != "scipy_minimize" and nb >= n_iter
+            if rng.random() < 0.4 and not no_kept and kind != "mixture_logistic" and id_style != "int":
+                try:
+                    same_size = bool(rng.random() < 0.6)
+                    df_pre = gen.cohort(rng, n_ind=n_sub if same_size else n_sub + 2, n_feat=dim, missing="mcar", events=events,
+                                        one_visit_ok=not events, binary=binary)
+                    with contextlib.redirect_stdout(io.StringIO()):
+                        algo.run(model, gen.to_dataset(df_pre, events=events))
+                    ctx.count("algorithm_object_reused")
+                    case["algorithm_object_already_run_once"] = True
+                except Exception as e:
+                    ctx.count("pre_run_failed_not_judged")
+                rec["iters"].clear()
+                rec["scipy"].clear()
+            # ---- the real call ------------------------------------------------------------------------------
             try:
                 with contextlib.redirect_stdout(io.StringIO()):
                     ip = algo.run(model, ds)
